@@ -5,27 +5,28 @@ open Pk.Mgr Pk.Proofs.MgrTags
 
 /-! ## relations between the old and the new entry of a key -/
 
-/-- answers, pending set, definition and attributes are equal (only `refBy`, `color`, `convs` may differ) -/
-def AE (t t' : Tag) : Prop :=
+/-- answers, pending set, definition, attributes and identity are equal (only `refBy`, `color`, `convs` may differ) -/
+def AE (t t' : Tag) : Prop :=  -- CHANGED (gen)
   t'.mat = t.mat ∧ t'.unc = t.unc ∧ t'.defn = t.defn ∧ t'.mainT = t.mainT ∧ t'.subT = t.subT ∧
-  t'.mfeat = t.mfeat ∧ t'.sfeat = t.sfeat
+  t'.mfeat = t.mfeat ∧ t'.sfeat = t.sfeat ∧ t'.gen = t.gen
 
-/-- answers, definition and attributes are equal, pending ids below `all` stay pending -/
-def AR (all : Nat) (t t' : Tag) : Prop :=
+/-- answers, definition, attributes and identity are equal, pending ids below `all` stay pending -/
+def AR (all : Nat) (t t' : Tag) : Prop :=  -- CHANGED (gen)
   t'.mat = t.mat ∧ t'.defn = t.defn ∧ t'.mainT = t.mainT ∧ t'.subT = t.subT ∧
-  t'.mfeat = t.mfeat ∧ t'.sfeat = t.sfeat ∧ ∀ id, id ∈ t.unc → id < all → id ∈ t'.unc
+  t'.mfeat = t.mfeat ∧ t'.sfeat = t.sfeat ∧ t'.gen = t.gen ∧ ∀ id, id ∈ t.unc → id < all → id ∈ t'.unc
 
-theorem AE.refl (t : Tag) : AE t t := ⟨rfl, rfl, rfl, rfl, rfl, rfl, rfl⟩
+theorem AE.refl (t : Tag) : AE t t := ⟨rfl, rfl, rfl, rfl, rfl, rfl, rfl, rfl⟩
 theorem AE.trans {a b c : Tag} (h1 : AE a b) (h2 : AE b c) : AE a c := by
-  obtain ⟨a1, a2, a3, a4, a5, a6, a7⟩ := h1
-  obtain ⟨b1, b2, b3, b4, b5, b6, b7⟩ := h2
-  exact ⟨b1.trans a1, b2.trans a2, b3.trans a3, b4.trans a4, b5.trans a5, b6.trans a6, b7.trans a7⟩
+  obtain ⟨a1, a2, a3, a4, a5, a6, a7, a8⟩ := h1
+  obtain ⟨b1, b2, b3, b4, b5, b6, b7, b8⟩ := h2
+  exact ⟨b1.trans a1, b2.trans a2, b3.trans a3, b4.trans a4, b5.trans a5, b6.trans a6, b7.trans a7,
+    b8.trans a8⟩
 
-theorem AR.refl (all : Nat) (t : Tag) : AR all t t := ⟨rfl, rfl, rfl, rfl, rfl, rfl, fun _ h _ => h⟩
+theorem AR.refl (all : Nat) (t : Tag) : AR all t t := ⟨rfl, rfl, rfl, rfl, rfl, rfl, rfl, fun _ h _ => h⟩
 theorem AR.trans {all : Nat} {a b c : Tag} (h1 : AR all a b) (h2 : AR all b c) : AR all a c := by
-  obtain ⟨a1, a2, a3, a4, a5, a6, a7⟩ := h1
-  obtain ⟨b1, b2, b3, b4, b5, b6, b7⟩ := h2
-  exact ⟨b1.trans a1, b2.trans a2, b3.trans a3, b4.trans a4, b5.trans a5, b6.trans a6,
+  obtain ⟨a1, a2, a3, a4, a5, a6, a8, a7⟩ := h1
+  obtain ⟨b1, b2, b3, b4, b5, b6, b8, b7⟩ := h2
+  exact ⟨b1.trans a1, b2.trans a2, b3.trans a3, b4.trans a4, b5.trans a5, b6.trans a6, b8.trans a8,
     fun id h hb => b7 id (a7 id h hb) hb⟩
 
 /-- the entry of `n` is related by `R`, and is absent iff it was absent (one direction is enough here) -/
@@ -73,14 +74,14 @@ theorem addRefBy_ke (n : String) (s : St) (a b : String) : KE n s (addRefBy s a 
   unfold addRefBy; split
   · rename_i t ht
     exact keepR_sins_rel AE.refl ht (t' := { t with refBy := strIns b t.refBy })
-      (by exact ⟨rfl, rfl, rfl, rfl, rfl, rfl, rfl⟩) n
+      (by exact ⟨rfl, rfl, rfl, rfl, rfl, rfl, rfl, rfl⟩) n
   · exact KE.refl _ _
 
 theorem delRefBy_ke (n : String) (s : St) (a b : String) : KE n s (delRefBy s a b) := by
   unfold delRefBy; split
   · rename_i t ht
     exact keepR_sins_rel AE.refl ht (t' := { t with refBy := t.refBy.filter (· != b) })
-      (by exact ⟨rfl, rfl, rfl, rfl, rfl, rfl, rfl⟩) n
+      (by exact ⟨rfl, rfl, rfl, rfl, rfl, rfl, rfl, rfl⟩) n
   · exact KE.refl _ _
 
 /-! ## inherit -/
@@ -91,8 +92,8 @@ theorem ar_inheritOne (all : Nat) (tags : List (String × Tag)) (t : Tag) :
   split
   · exact AR.refl _ _
   · split
-    · exact ⟨rfl, rfl, rfl, rfl, rfl, rfl, fun id _ hb => by simpa using hb⟩
-    · exact ⟨rfl, rfl, rfl, rfl, rfl, rfl, fun id h _ => by simp [mem_foldl_union, h]⟩
+    · exact ⟨rfl, rfl, rfl, rfl, rfl, rfl, rfl, fun id _ hb => by simpa using hb⟩
+    · exact ⟨rfl, rfl, rfl, rfl, rfl, rfl, rfl, fun id h _ => by simp [mem_foldl_union, h]⟩
 
 theorem passStep_keepR (all : Nat) (T0 : List (String × Tag)) (acc) (nt : String × Tag)
     (h : ∀ n, KeepR (AR all) n T0 acc.1) : ∀ n, KeepR (AR all) n T0 (passStep all acc nt).1 := by
@@ -154,7 +155,8 @@ theorem updName_ok (s : St) (name new : String) (st : Started)
     (∃ t, sget s.tags name = some t ∧ t.refBy = [] ∧ sget s.tags new = none ∧ name ≠ new ∧
       sget (step s (.updName name new) st).1.tags name = none ∧
       ∃ t', sget (step s (.updName name new) st).1.tags new = some t' ∧ t'.mat = t.mat ∧ t'.unc = t.unc ∧
-        t'.defn = t.defn ∧ t'.mainT = t.mainT ∧ t'.subT = t.subT ∧ t'.mfeat = t.mfeat ∧ t'.sfeat = t.sfeat) := by
+        t'.defn = t.defn ∧ t'.mainT = t.mainT ∧ t'.subT = t.subT ∧ t'.mfeat = t.mfeat ∧ t'.sfeat = t.sfeat ∧
+        t'.gen = t.gen) := by  -- CHANGED (gen)
   revert h
   rw [step_updName_eq]
   split
@@ -205,7 +207,7 @@ theorem updQuery_ok (s : St) (name defn : String) (f : Facts) (st : Started)
     (h : (step s (.updQuery name defn f) st).2 = Res.ok) :
     ∃ t t', sget s.tags name = some t ∧ sget (step s (.updQuery name defn f) st).1.tags name = some t' ∧
       t'.defn = defn ∧ t'.mainT = f.main ∧ t'.subT = f.sub ∧ t'.mfeat = f.mfeat ∧ t'.sfeat = f.sfeat ∧
-      ∀ id, id < s.all → id ∈ t'.unc := by
+      (∀ id, id < s.all → id ∈ t'.unc) ∧ t'.gen = t.gen := by  -- CHANGED (gen)
   revert h
   rw [step_updQuery_eq]
   repeat' split
@@ -213,8 +215,8 @@ theorem updQuery_ok (s : St) (name defn : String) (f : Facts) (st : Started)
   rename_i t ht _ _ _
   intro _
   obtain ⟨t', h1, h2⟩ := uqApply_get s name t (uqTag2 (uqTag defn f) t s.all) st
-  obtain ⟨_, a2, a3, a4, a5, a6, a7⟩ := h2
-  exact ⟨t, t', ht, h1, a2, a3, a4, a5, a6, fun id hid => a7 id (by simp [uqTag2, hid]) hid⟩
+  obtain ⟨_, a2, a3, a4, a5, a6, a8, a7⟩ := h2
+  exact ⟨t, t', ht, h1, a2, a3, a4, a5, a6, fun id hid => a7 id (by simp [uqTag2, hid]) hid, a8⟩
 
 /-! ## addTag -/
 
@@ -226,6 +228,30 @@ theorem atFinish_get (s : St) (name : String) (nt : Tag) (m : Bool) (st : Starte
   · simp [setTag, sget_sins]
   · rw [same_sget (startTagging_same _ _)]; simp [setTag, sget_sins]
 
+theorem addRefBy_ngen (s : St) (a b : String) : (addRefBy s a b).ngen = s.ngen := by
+  unfold addRefBy; split <;> rfl
+
+theorem startTagging_ngen (s : St) (c : Option String) : (startTagging s c).ngen = s.ngen := by
+  unfold startTagging
+  split
+  · rfl
+  · split
+    · rfl
+    · simp only []
+      split
+      · split
+        · rfl
+        · rfl
+      · rfl
+
+theorem atFinish_ngen (s : St) (name : String) (nt : Tag) (m : Bool) (st : Started) :
+    (atFinish s name nt m st).ngen = s.ngen := by
+  unfold atFinish
+  refine foldl_inv (fun s' => s'.ngen = s.ngen) _ (fun a b ha => (addRefBy_ngen a b name).trans ha) _ _ ?_
+  split
+  · rfl
+  · exact startTagging_ngen _ _
+
 theorem addTag_ok (s : St) (name color defn : String) (f : Facts) (st : Started)
     (h : (step s (.addTag name color defn f) st).2 = Res.ok) :
     sget s.tags name = none ∧
@@ -233,7 +259,8 @@ theorem addTag_ok (s : St) (name color defn : String) (f : Facts) (st : Started)
     ∃ t', sget (step s (.addTag name color defn f) st).1.tags name = some t' ∧ t'.defn = defn ∧
       t'.mainT = f.main ∧ t'.subT = f.sub ∧ t'.mfeat = f.mfeat ∧ t'.sfeat = f.sfeat ∧
       (((parseTagName name).2.2 = true ∧ t'.unc = [] ∧ ∀ id, id ∈ t'.mat ↔ id ∈ f.ids) ∨
-       ((parseTagName name).2.2 = false ∧ ∀ id, id < s.all → id ∈ t'.unc)) := by
+       ((parseTagName name).2.2 = false ∧ ∀ id, id < s.all → id ∈ t'.unc)) ∧
+      t'.gen = s.ngen ∧ (step s (.addTag name color defn f) st).1.ngen = s.ngen + 1 := by  -- CHANGED (gen)
   revert h
   rw [step_addTag_eq]
   generalize parseTagName name = p
@@ -254,9 +281,15 @@ theorem addTag_ok (s : St) (name color defn : String) (f : Facts) (st : Started)
             · intro h; cases h
             · rename_i hrefs
               intro _
-              obtain ⟨t', h1, a1, a2, a3, a4, a5, a6, a7⟩ := atFinish_get
-                (atPair s (atTag color defn f isMark) f isMark).1 name
-                (atPair s (atTag color defn f isMark) f isMark).2 isMark st
+              obtain ⟨t', h1, a1, a2, a3, a4, a5, a6, a7, a8⟩ := atFinish_get
+                { (atPair s (atTagG s.ngen color defn f isMark) f isMark).1 with
+                  ngen := (atPair s (atTagG s.ngen color defn f isMark) f isMark).1.ngen + 1 } name
+                (atPair s (atTagG s.ngen color defn f isMark) f isMark).2 isMark st
+              have hng := atFinish_ngen
+                { (atPair s (atTagG s.ngen color defn f isMark) f isMark).1 with
+                  ngen := (atPair s (atTagG s.ngen color defn f isMark) f isMark).1.ngen + 1 } name
+                (atPair s (atTagG s.ngen color defn f isMark) f isMark).2 isMark st
+              simp only [atPair_fst] at hng
               refine ⟨?_, ?_, t', h1, ?_⟩
               · cases hn : sget s.tags name with
                 | none => rfl
@@ -269,12 +302,12 @@ theorem addTag_ok (s : St) (name color defn : String) (f : Facts) (st : Started)
                 | some x => rfl
               · cases isMark with
                 | true =>
-                  simp only [atPair, atTag, if_true] at a1 a2 a3 a4 a5 a6 a7
-                  refine ⟨a3, a4, a5, a6, a7, Or.inl ⟨rfl, a2, fun id => ?_⟩⟩
+                  simp only [atPair, atTagG, atTag, if_true] at a1 a2 a3 a4 a5 a6 a7 a8
+                  refine ⟨a3, a4, a5, a6, a7, Or.inl ⟨rfl, a2, fun id => ?_⟩, a8, hng⟩
                   rw [a1]; simp
                 | false =>
-                  simp only [atPair, atTag, Bool.false_eq_true, if_false] at a1 a2 a3 a4 a5 a6 a7
-                  refine ⟨a3, a4, a5, a6, a7, Or.inr ⟨rfl, fun id hid => ?_⟩⟩
+                  simp only [atPair, atTagG, atTag, Bool.false_eq_true, if_false] at a1 a2 a3 a4 a5 a6 a7 a8
+                  refine ⟨a3, a4, a5, a6, a7, Or.inr ⟨rfl, fun id hid => ?_⟩, a8, hng⟩
                   rw [a2]; simpa [atPair_fst] using hid
 
 end Pk.Proofs.MgrTruth
